@@ -77,6 +77,7 @@ def rule_staleness_reaches_memories(ctx):
             n += 1
             ws = " ".join(all_where_clauses(st.text))
             ctx.check(not re.search(r"\bdetached\b", ws) and not re.search(r"\bdetached\b", st.text), fq, "env_var selector does not filter on detached", "tracked environment variables of detached steps are not re-examined at startup", "no detached filter", where=f"stepup/core/{fi.module.path.name}:{st.site.lineno}")
+    shared.check_detach_repends_attached_consumers(ctx, "a consumer declared by another plan stays SUCCEEDED on the detached output of a step that the plan no longer defines: the build ends with status 0 and both files stay, where a build from scratch leaves the consumer pending on a missing input")
     shared.check_changes_reach_detached_files(ctx, "an edit made while the node is detached (sub-plan switched off, failed or uncleaned build) is never noticed; when the sub-plan comes back its steps are recycled and skipped on a stale hash, and the output is stale")
     ng = ctx.prog.func("workflow.Workflow.nglob_registrations")
     src = _norm(ast.unparse(ng.node))
